@@ -20,6 +20,15 @@ Theorem C05_crash_fresh : forall k pre g md v ov,
 Proof. exact crash_clean. Qed.
 Print Assumptions C05_crash_fresh.
 
+(* `unrecognised` is stated through structural validation; the property says "validation AND reading reject it": a read with
+   structural validation on (the default of GeffReader, read_to_memory and every backend reader) runs that validation first, so
+   an unrecognised state is not read either -- whatever names are requested *)
+Theorem C05_unrecognised_not_read : forall k st nn en,
+  unrecognised k st -> exists e, Read.read_to_memory k st true nn en = Err e.
+Proof. intros k st nn en H. unfold Read.read_to_memory, Read.reader_init.
+  destruct (validate_structure k st) as [[]|e] eqn:Ev; [exfalso; apply H; exact Ev | exists e; reflexivity]. Qed.
+Print Assumptions C05_unrecognised_not_read.
+
 (* (b) overwrite=True on ANY pre-state (in particular one holding a geff): from the first mutation on (the deletion of
        the old nodes group) until the commit of the new graph every state is unrecognised; before the first mutation the
        store is still the previous graph. *)
